@@ -187,12 +187,13 @@ def marking_equations(ck, an, want: set):
                 in_keyerror = any(isinstance(x, ast.ExceptHandler) and x.type is not None and "KeyError" in ast.unparse(x.type) for x in parents(n))
                 mr = [p for p in sg if (p[0] == "rel" and p[1] == "==" and p[4] in (mreq_item, -mreq_item)) or (p[0] == "truthy" and not p[2] and p[1] == mreq_item.key())]
                 nanq = [p for p in sg if p[0] == "truthy" and p[2] and "isnan(" in p[1] and ("liq_price(" in p[1] or "acq_price(-" in p[1])]
+                noref = [p for p in sg if p[0] == "in" and not p[3] and p[2] == "self._last_marking_to_market_price" and p[1] == loop_item(fa, loop).key()]      # `if contract not in references: continue`
                 if isinstance(n, ast.Continue) and len(sg) == 1 and mr:
                     kinds["no-margin"] += 1
                     skip_tests.append(next(x for x in parents(n) if isinstance(x, ast.If)).test)
                 elif isinstance(n, ast.Continue) and len(sg) == 1 and nanq:
                     kinds["nan-quote"] += 1
-                elif isinstance(n, ast.Continue) and not sg and in_keyerror:
+                elif isinstance(n, ast.Continue) and ((not sg and in_keyerror) or (len(sg) == 1 and noref)):
                     kinds["no-reference"] += 1
                 else:
                     ck.fail("GUARD", "S4.no-other-skip-in-marking", subj, fa.loc(n), f"marking_to_market skips contracts under {[cmp_key(p) for p in sg] or 'an unexpected path'}: positions would keep a stale margin / NLV",
